@@ -146,6 +146,9 @@ func aggregateE1(rep *Reporter, prop string, cases []*e1Case, res *e1Result, bou
 		excl = append(excl, fmt.Sprintf("%s [%s] %s", caseLabel(f.Case), f.Phase, head(firstErrorLine(f.Output), 160)))
 		if failuresAreViolations[prop] {
 			norm := normErr(firstErrorLine(f.Output))
+			if fk := failKey[prop]; fk != nil {
+				norm = fk(f)
+			}
 			rep.Violation("does-not-"+f.Phase+"|"+norm, fmt.Sprintf("%s: goderive output for this case does not %s: %s", caseLabel(f.Case), f.Phase, head(firstErrorLine(f.Output), 300)),
 				map[string]interface{}{"engine": "e1", "phase": f.Phase, "output": tail(f.Output, 3000), "files": f.Files})
 		}
@@ -182,6 +185,29 @@ func aggregateE1(rep *Reporter, prop string, cases []*e1Case, res *e1Result, bou
 // for these properties a supported signature that cannot be generated or
 // compiled is itself a violation (the statement quantifies over every signature)
 var failuresAreViolations = map[string]bool{"C15": true, "C16": true, "C18": true}
+
+// failKey lets a property key its generation/compile failures by input class
+var failKey = map[string]func(f e1Failure) string{}
+
+// markSuspects isolates the cases whose would-be failure key is a listed finding.
+func markSuspects(rep *Reporter, prop string, cases []*e1Case) {
+	fk := failKey[prop]
+	if fk == nil {
+		return
+	}
+	n := 0
+	for _, c := range cases {
+		for _, phase := range []string{"generate", "compile"} {
+			if _, ok := rep.matchKnown("does-not-" + phase + "|" + fk(e1Failure{Case: c, Phase: phase})); ok {
+				c.Suspect = true
+			}
+		}
+		if c.Suspect {
+			n++
+		}
+	}
+	rep.Cov["cases_isolated_as_listed_findings"] = n
+}
 
 func caseLabel(c *e1Case) string {
 	if c.Ty != nil {
